@@ -68,6 +68,11 @@ def merge_rule(ck, P):
         from . import census
         fs = [f for n_, f_ in census.nodes_with_facts(ir.fn_block(b), lambda y: y is ac[0]) for f in f_]
         okc = any((f[0] == "pred" and f[2] == "is_some" and f[4] is True and f[1].endswith(".center")) or (f[0] == "letpat" and f[1].endswith(".center")) for f in fs)
+    if not okc and len(ac) == 1:
+        # the same decision as one expression: `self.center = other.center.or(self.center)` (a present center of `other` wins, else kept)
+        r_ = ir.unparen(ir.strip(ac[0]["r"]))
+        okc = r_.get("k") == "mcall" and r_.get("name") == "or" and (r_.get("q") or "").startswith("core::option::Option::") and len(r_.get("a", ())) == 1 and \
+            other_rooted(r_["recv"]) and ir.place_str(r_["recv"]).endswith(".center") and ir.place_str(r_["a"][0]) == "self.center"
     zz = {}
     for y in ir.walk_nodes(b["body"]):
         if y.get("k") == "mcall" and y.get("name") in ("min", "max") and len(y.get("a", ())) == 1:
@@ -448,7 +453,14 @@ def rules(ck, P):
                 for a in n["arms"]:
                     p = a["pat"]
                     if p.get("k") == "expr" and p["e"].get("lk") == "char":
-                        etab[p["e"]["cp"]] = ir.const_eval_str(a["body"])
+                        # what the arm emits: the arm's value (`=> "\\n".to_string()`) or what it appends (`=> out.push_str("\\n")`)
+                        ab = ir.unparen(a["body"])
+                        while ab.get("k") == "block" and not ab.get("stmts") and ab.get("tail") is not None:
+                            ab = ir.unparen(ab["tail"])
+                        if ab.get("k") == "mcall" and ab.get("name") in ("push_str", "write_str") and len(ab.get("a", ())) == 1:
+                            etab[p["e"]["cp"]] = ir.const_eval_str(ab["a"][0])
+                        else:
+                            etab[p["e"]["cp"]] = ir.const_eval_str(a["body"])
                     elif p.get("k") == "bind" and "guard" in a:
                         g = ir.unparen(a["guard"])
                         if g.get("k") == "mcall" and g.get("name") == "is_control":
